@@ -36,12 +36,36 @@ pub(crate) mod thread {
     pub(crate) fn spawned() -> usize { unsafe { SPAWNED } }
 }
 
+pub(crate) mod atomic {
+    //! `AtomicBool` with a schedule point before every access, so that an interferer can be placed
+    //! between an atomic flag access and the neighbouring lock-protected accesses.
+    //! Sequentially consistent (CBMC executes Kani programs that way; weak memory is outside the claim).
+    use core::cell::Cell;
+    use std::sync::atomic::Ordering;
+    pub struct AtomicBool { v: Cell<bool> }
+    unsafe impl Sync for AtomicBool {}
+    unsafe impl Send for AtomicBool {}
+    impl AtomicBool {
+        pub const fn new(v: bool) -> Self { AtomicBool { v: Cell::new(v) } }
+        pub fn load(&self, _o: Ordering) -> bool { verif_sched::schedule_point(verif_sched::S_ATOMIC); self.v.get() }
+        pub fn store(&self, v: bool, _o: Ordering) { verif_sched::schedule_point(verif_sched::S_ATOMIC); self.v.set(v) }
+        pub fn swap(&self, v: bool, _o: Ordering) -> bool { verif_sched::schedule_point(verif_sched::S_ATOMIC); self.v.replace(v) }
+        pub fn compare_exchange(&self, cur: bool, new: bool, _s: Ordering, _f: Ordering) -> Result<bool, bool> {
+            verif_sched::schedule_point(verif_sched::S_ATOMIC);
+            let old = self.v.get();
+            if old == cur { self.v.set(new); Ok(old) } else { Err(old) }
+        }
+        pub fn vk_peek(&self) -> bool { self.v.get() }
+    }
+}
+
 pub(crate) mod collections {
     //! Sequential array-backed `HashSet` / `HashMap` (std's versions run SipHash with random keys:
     //! > 6 min under Kani for one element).  Same observable behaviour as a set / map.
     use core::borrow::Borrow;
     use core::mem::MaybeUninit;
-    pub(crate) const SCAP: usize = 6;
+    pub(crate) const SCAP: usize = 4;
+    pub(crate) const MCAP: usize = 10;
 
     pub struct HashSet<T> { used: [bool; SCAP], items: [MaybeUninit<T>; SCAP] }
     impl<T: Eq> HashSet<T> {
@@ -70,35 +94,35 @@ pub(crate) mod collections {
         pub fn clear(&mut self) { let mut i = 0; while i < SCAP { self.used[i] = false; i += 1; } }
     }
 
-    pub struct HashMap<K, V> { used: [bool; SCAP], keys: [MaybeUninit<K>; SCAP], vals: [MaybeUninit<V>; SCAP] }
+    pub struct HashMap<K, V> { used: [bool; MCAP], keys: [MaybeUninit<K>; MCAP], vals: [MaybeUninit<V>; MCAP] }
     impl<K: Eq, V> HashMap<K, V> {
-        pub fn new() -> Self { HashMap { used: [false; SCAP], keys: unsafe { MaybeUninit::uninit().assume_init() }, vals: unsafe { MaybeUninit::uninit().assume_init() } } }
+        pub fn new() -> Self { HashMap { used: [false; MCAP], keys: unsafe { MaybeUninit::uninit().assume_init() }, vals: unsafe { MaybeUninit::uninit().assume_init() } } }
         #[inline(always)]
         fn find<Q>(&self, k: &Q) -> usize where K: Borrow<Q>, Q: Eq + ?Sized {
-            let mut idx = SCAP; let mut i = 0;
-            while i < SCAP { if idx == SCAP && self.used[i] && unsafe { self.keys[i].assume_init_ref() }.borrow() == k { idx = i; } i += 1; }
+            let mut idx = MCAP; let mut i = 0;
+            while i < MCAP { if idx == MCAP && self.used[i] && unsafe { self.keys[i].assume_init_ref() }.borrow() == k { idx = i; } i += 1; }
             idx
         }
         pub fn insert(&mut self, k: K, v: V) -> Option<V> {
             let idx = self.find(&k);
-            if idx < SCAP {
+            if idx < MCAP {
                 let old = unsafe { self.vals[idx].assume_init_read() };
                 self.vals[idx] = MaybeUninit::new(v);
                 core::mem::forget(k);
                 return Some(old);
             }
-            let mut f = SCAP; let mut i = 0;
-            while i < SCAP { if f == SCAP && !self.used[i] { f = i; } i += 1; }
-            if f >= SCAP { kani::assume(false); f = 0; }
+            let mut f = MCAP; let mut i = 0;
+            while i < MCAP { if f == MCAP && !self.used[i] { f = i; } i += 1; }
+            if f >= MCAP { kani::assume(false); f = 0; }
             self.used[f] = true; self.keys[f] = MaybeUninit::new(k); self.vals[f] = MaybeUninit::new(v);
             None
         }
         pub fn get<Q>(&self, k: &Q) -> Option<&V> where K: Borrow<Q>, Q: Eq + ?Sized {
             let idx = self.find(k);
-            if idx < SCAP { Some(unsafe { self.vals[idx].assume_init_ref() }) } else { None }
+            if idx < MCAP { Some(unsafe { self.vals[idx].assume_init_ref() }) } else { None }
         }
-        pub fn contains_key<Q>(&self, k: &Q) -> bool where K: Borrow<Q>, Q: Eq + ?Sized { self.find(k) < SCAP }
-        pub fn len(&self) -> usize { let mut n = 0; let mut i = 0; while i < SCAP { if self.used[i] { n += 1; } i += 1; } n }
+        pub fn contains_key<Q>(&self, k: &Q) -> bool where K: Borrow<Q>, Q: Eq + ?Sized { self.find(k) < MCAP }
+        pub fn len(&self) -> usize { let mut n = 0; let mut i = 0; while i < MCAP { if self.used[i] { n += 1; } i += 1; } n }
         pub fn is_empty(&self) -> bool { self.len() == 0 }
     }
     impl<K: Eq, V> FromIterator<(K, V)> for HashMap<K, V> {
@@ -108,7 +132,7 @@ pub(crate) mod collections {
         fn eq(&self, o: &Self) -> bool {
             if self.len() != o.len() { return false; }
             let mut ok = true; let mut i = 0;
-            while i < SCAP {
+            while i < MCAP {
                 if self.used[i] { match o.get(unsafe { self.keys[i].assume_init_ref() }) { Some(v) => { if v != unsafe { self.vals[i].assume_init_ref() } { ok = false; } } None => { ok = false; } } }
                 i += 1;
             }
